@@ -9,12 +9,12 @@ USES_FACTS = False
 DRIVER = "shootmodel_map"
 
 MANIFEST = dict(
-    text="Lean 4 theorems over parseCtors (parameter->field recovery composed with the C02 model of `shoot new`), makeCtorMatch with zero-value synthesis and the accessor pseudo-fields: every constructor argument is the zero literal or a justified value of a name-matched readable field, in parameter order (C15_ctor_args); no settable field is written twice, never after the constructor carried it (C15_set_once), and every settable field with an applicable name-matched partner that the constructor did not take is set exactly once (C15_set_exactly_once); every emitted statement applies C05's decision function to its two fields (C15_refines), accessor names match like the exported twin (C15_refines_partial); 3 finding regions with witness theorems (F_skipTagNew, F_ctorNoSub, F_ptrEmbedSetter), 5 `_fixed` theorems on the witnesses of the repaired regions (set-only read, constructor priority, constructor tag, pointer-embed parameters, `any` zero value). Model tied to the code by rendering src/dest/both with unexported fields, generating real `shoot new -getset` output first, running `shoot map`, executing ToX/FromX and decoding every (unexported) leaf, plus per-leaf write counts from the generated text.",
+    text="Lean 4 theorems over parseCtors (parameter->field recovery composed with the C02 model of `shoot new`), makeCtorMatch with zero-value synthesis and the accessor pseudo-fields: every constructor argument is the zero literal or a justified value of a name-matched readable field, in parameter order (C15_ctor_args); no settable field is written twice, never after the constructor carried it (C15_set_once), and every settable field with an applicable name-matched partner that the constructor did not take is set exactly once (C15_set_exactly_once); every emitted statement applies C05's decision function to its two fields (C15_refines), accessor names match like the exported twin (C15_refines_partial); 4 finding regions with witness theorems (F_skipTagNew, F_ctorNoSub, F_ptrEmbedSetter, F_ctorArgNil: constructor arguments are read through nil embedded pointers unguarded), C15_hook_owned (a field a manual hook assigns is written by nobody else), 5 `_fixed` theorems on the witnesses of the repaired regions (set-only read, constructor priority, constructor tag, pointer-embed parameters, `any` zero value). Model tied to the code by rendering src/dest/both with unexported fields, generating real `shoot new -getset` output first, running `shoot map`, executing ToX/FromX and decoding every (unexported) leaf, plus per-leaf write counts from the generated text, the plain side partially nil (each embedded pointer / slice element in turn) and, per accessor-mode side, whether the generated constructor allocated every embedded pointer (ctoralloc keys: the assumption the constructor path of mapper.tmpl rests on).",
     note="Lean kernel + standard axioms; accessor-mode types are flat or embed ONE level of flat accessor-mode types by value (promoted accessors, nested constructor literal); C15_refines / C15_set_exactly_once need `uniqueClaimable` (at most one claimable partner per field); which of several READING fields wins a written field (first in list order) and the leaf-level equality with the exported twin are asserted by the correspondence.",
     technique="Lean 4 proof (fold invariant of makeCtorMatch, write-set invariant) + differential execution through real accessors",
     design="5/C15")
 
-KEYS_PREFIX = ("to:", "from:", "writes:", "compile", "exit")
+KEYS_PREFIX = ("to:", "from:", "writes:", "compile", "exit", "toN:", "fromN:", "ctoralloc:")
 DROP = ("to:nilrecv", "from:nilarg")
 
 BASE = dict(embeds=0.0, shadow=0.0, multi=0.0, unexported=0.0,
@@ -90,6 +90,25 @@ def shaped(g, rng):
                             [mapgen.F("ID", mapgen.INT), mapgen.F("Label", mapgen.STR), mapgen.F("Title", mapgen.STR)], src_kind="new", sname="Ticket")
         sp["manual"] = {"write": None, "read": "read", "readptr": ptr, "recvval": False, "rfields": ["label", "title"]}
         out.append(("hook-owns-unexported", sp))
+    # the plain side has POINTER embeds that are nil in turn while the other side is a shoot-new type (seeded change C15-8): a field
+    # written through a setter / passed to the constructor is read behind the guard of its embedded pointer, like a plain field
+    for sd, kw in (("src", dict(newmark=1.0, getonly=0.0, setonly=0.0)), ("src", dict(newmark=0.0, getonly=0.0, setonly=0.0)),
+                   ("src", dict(newmark=1.0, getonly=0.3, setonly=0.0)), ("dest", dict(newmark=1.0, getonly=0.0, setonly=0.0)),
+                   ("dest", dict(newmark=0.0, getonly=0.3, setonly=0.0))):
+        sp = g.pair(**dict(BASE, names=["ident"], kinds=["same", "conv"], n=(4, 6), embeds=1.0, ptr_embed=1.0, depth2=0.5, deep=0.9,
+                           func_over=0.0, mapper_idle=0.0, diamond=0.0, selfembed=0.0, flags={"way": "both"}))
+        mapgen.to_new(rng, sp, sd, **kw)
+        out.append(("plain-ptr-embeds-vs-new-" + sd, sp))
+    # a shoot-new type that embeds a POINTER struct none of whose fields is a constructor parameter (opt-in `new` marks elsewhere),
+    # while its fields are set after construction (seeded change C09-7): the constructor still has to allocate it
+    F, E, ST, INT, STR = mapgen.F, mapgen.E, mapgen.ST, mapgen.INT, mapgen.STR
+    for sd in ("dest", "src"):
+        for inner_exported in (False, True):
+            core = ST("Core", [F("Note" if inner_exported else "note", STR), F("rank", INT)], "new")
+            nw = [E(core, True), F("id", INT, new=True), F("title", STR)]
+            pl = [F("Note", STR), F("Rank", INT), F("ID", INT), F("Title", STR)]
+            sp = mapgen.mk_spec(pl, nw, dest_kind="new", sname="Doc") if sd == "dest" else mapgen.mk_spec(nw, pl, src_kind="new", sname="Doc")
+            out.append(("ptr-embed-without-ctor-params-" + sd, sp))
     # getters whose own name begins with "Set" (seeded change C15-5): Settings() / Setup() are matched under their whole name,
     # only SETTERS lose the prefix; `up` is the remainder Setup would collide with
     for sd in ("dest", "src"):
@@ -106,7 +125,7 @@ def gen_cases(ctx):
     g = mapgen.MapGen(ctx.rng)
     specs = [("witness-" + f, w) for f, w in mapgen.WITNESSES[PROP]()] + shaped(g, ctx.rng)
     for i in range(ctx.n(65, 1200)):
-        sp = g.pair(**BASE)
+        sp = g.pair(**(BASE if ctx.rng.random() < 0.7 else dict(BASE, embeds=0.8, ptr_embed=0.8, deep=0.8, diamond=0.0, selfembed=0.0)))
         r = ctx.rng.random()
         sides = ("dest",) if r < 0.4 else ("src",) if r < 0.7 else ("src", "dest")
         for sd in sides:
@@ -118,7 +137,11 @@ def gen_cases(ctx):
         specs.append(("random", settle_way(ctx.rng, sp)))
     cases = []
     for i, (feat, sp) in enumerate(specs):
-        c = mapgen.make_case("a%d" % i, sp, prop="C15")
+        # partially nil inputs on the PLAIN side(s): each embedded pointer / slice element nil in turn (the accessor-mode side is
+        # always fully populated: its getters go through its own embedded pointers unguarded)
+        masks = mapgen.part_masks(mapgen.side_struct(sp, "src")) if sp["src"]["kind"] != "new" else []
+        fmasks = mapgen.part_masks(sp["dest"]) if sp["dest"]["kind"] != "new" else []
+        c = mapgen.make_case("a%d" % i, sp, masks=masks, fmasks=fmasks, prop="C15")
         c["feat"] = feat
         cases.append(c)
     return cases
